@@ -187,7 +187,7 @@ Proof.
   - intro x. split; intro Hx; [eapply Permutation_in; eauto|eapply Permutation_in; [symmetry; eauto|auto]].
 Qed.
 
-Definition cfg_before_fix : cfg := mk_cfg false true true true true true.
+Definition cfg_before_fix : cfg := mk_cfg false true true true true true true.
 
 (** before the fix (no sort in ToPb) two replicas store different byte strings *)
 Theorem edit_sudoers_refuted_before_fix :
@@ -219,7 +219,7 @@ Proof.
   apply commit_obj_deterministic; auto.
 Qed.
 
-Definition cfg_dirties_unsorted : cfg := mk_cfg true false true true true true.
+Definition cfg_dirties_unsorted : cfg := mk_cfg true false true true true true true.
 
 (** iterating journal.dirties directly: two accounts created by one transaction receive their
     account numbers in map order *)
@@ -233,20 +233,50 @@ Qed.
 
 (* ------------------------------------------------------------------ x/oracle *)
 
-Theorem remove_invalid_deterministic c π π' path pvs :
-  c_remove_via_omap c = true -> c_omap_sorted c = true -> valid_sched π -> valid_sched π' ->
-  remove_invalid c π path pvs = remove_invalid c π' path pvs.
+(** a producer that blocks on every send hands over EVERY key, in order, whatever the consumer's wall clock *)
+Theorem range_recv_blocking delays keys : range_recv None delays keys = keys.
 Proof.
-  intros H1 H2 H H'. unfold remove_invalid. rewrite H1, H2. simpl andb.
-  rewrite (order_keys_sorted (π (2 :: path)) (π' (2 :: path))); auto.
+  revert delays. induction keys as [|k rest IH]; intros [|d ds]; simpl; auto. rewrite IH. reflexivity.
 Qed.
 
-Theorem tally_deterministic c π π' path pvs perfs prices :
-  c_tally_via_omap c = true -> c_omap_sorted c = true -> valid_sched π -> valid_sched π' ->
-  tally c π path pvs perfs prices = tally c π' path pvs perfs prices.
+(** with a bound on the wait the consumer sees a PREFIX, and which one depends on its clock *)
+Theorem range_recv_prefix t delays keys : exists rest, keys = range_recv (Some t) delays keys ++ rest.
 Proof.
-  intros H1 H2 H H'. unfold tally. rewrite H1, H2. simpl andb.
-  rewrite (order_keys_sorted (π (3 :: path)) (π' (3 :: path))); auto.
+  revert delays. induction keys as [|k ks IH]; intros [|d ds]; simpl.
+  - exists []. reflexivity.
+  - exists []. reflexivity.
+  - exists []. rewrite app_nil_r. reflexivity.
+  - destruct (t <? d).
+    + exists (k :: ks). reflexivity.
+    + destruct (IH ds) as [r Hr]. exists r. simpl. rewrite <- Hr. reflexivity.
+Qed.
+
+Theorem range_recv_timeout_refuted :
+  exists t delays delays' keys, range_recv (Some t) delays keys <> range_recv (Some t) delays' keys.
+Proof. exists 1000, [], [0; 1500], [1; 2; 3]. vm_compute. discriminate. Qed.
+
+Theorem keys_seen_deterministic c via π π' (δ δ' : clock) site ks :
+  via = true -> c_omap_sorted c = true -> c_range_blocking c = true -> valid_sched π -> valid_sched π' ->
+  keys_seen c via π δ site ks = keys_seen c via π' δ' site ks.
+Proof.
+  intros Hv Hs Hb H H'. unfold keys_seen, range_timeout. rewrite Hv, Hs, Hb.
+  rewrite !range_recv_blocking. apply order_keys_sorted; auto.
+Qed.
+
+Theorem remove_invalid_deterministic c π π' δ δ' path pvs :
+  c_remove_via_omap c = true -> c_omap_sorted c = true -> c_range_blocking c = true -> valid_sched π -> valid_sched π' ->
+  remove_invalid c π δ path pvs = remove_invalid c π' δ' path pvs.
+Proof.
+  intros H1 H2 H3 H H'. unfold remove_invalid.
+  rewrite (keys_seen_deterministic c _ π π' δ δ'); auto.
+Qed.
+
+Theorem tally_deterministic c π π' δ δ' path pvs perfs prices :
+  c_tally_via_omap c = true -> c_omap_sorted c = true -> c_range_blocking c = true -> valid_sched π -> valid_sched π' ->
+  tally c π δ path pvs perfs prices = tally c π' δ' path pvs perfs prices.
+Proof.
+  intros H1 H2 H3 H H'. unfold tally.
+  rewrite (keys_seen_deterministic c _ π π' δ δ'); auto.
 Qed.
 
 Lemma miss_step_comm perfs mc a b :
@@ -487,18 +517,18 @@ Qed.
 
 (* ------------------------------------------------------------------ composition *)
 
-Theorem step_deterministic c abi π π' path s m :
+Theorem step_deterministic c abi π π' δ δ' path s m :
   cfg_ok c = true -> abi_ok abi -> valid_sched π -> valid_sched π' ->
-  step c abi π path s m = step c abi π' path s m.
+  step c abi π δ path s m = step c abi π' δ' path s m.
 Proof.
   intros Hc Habi H H'.
   unfold cfg_ok in Hc. repeat (apply andb_true_iff in Hc as [Hc ?]).
   destruct m as [add cs|dirties|vals pvs npairs pool|addrs|sel]; simpl.
   - rewrite (edit_sudoers_deterministic c (π (10 :: path)) (π' (10 :: path))); auto.
   - rewrite (commit_deterministic c π π'); auto.
-  - rewrite (remove_invalid_deterministic c π π'); auto.
-    rewrite (tally_deterministic c π π'); auto.
-    destruct (tally c π' path (remove_invalid c π' path (kv_of_list pvs)) (new_perfs vals) (st_prices s)) as [perfs1 prices].
+  - rewrite (remove_invalid_deterministic c π π' δ δ'); auto.
+    rewrite (tally_deterministic c π π' δ δ'); auto.
+    destruct (tally c π' δ' path (remove_invalid c π' δ' path (kv_of_list pvs)) (new_perfs vals) (st_prices s)) as [perfs1 prices].
     rewrite (incr_miss_deterministic π π'); auto.
     rewrite (abstain_by_omission_deterministic π π'); auto.
     rewrite (reward_winners_deterministic π π'); auto.
@@ -507,35 +537,49 @@ Proof.
   - rewrite (method_by_id_deterministic (π (11 :: path)) (π' (11 :: path))); auto.
 Qed.
 
-Theorem run_from_deterministic c abi π π' h :
+Theorem run_from_deterministic c abi π π' δ δ' h :
   cfg_ok c = true -> abi_ok abi -> valid_sched π -> valid_sched π' ->
-  forall i s, run_from c abi π i s h = run_from c abi π' i s h.
+  forall i s, run_from c abi π δ i s h = run_from c abi π' δ' i s h.
 Proof.
   intros Hc Habi H H'. induction h as [|m t IH]; intros i s; simpl; auto.
-  rewrite (step_deterministic c abi π π'); auto.
-  destruct (step c abi π' [i] s m) as [s1 r]. rewrite IH. reflexivity.
+  rewrite (step_deterministic c abi π π' δ δ'); auto.
+  destruct (step c abi π' δ' [i] s m) as [s1 r]. rewrite IH. reflexivity.
 Qed.
 
-Theorem run_deterministic c abi π π' h :
+(** two replicas — any two map-iteration schedules, any two wall clocks — compute the same state and the same results *)
+Theorem run_deterministic c abi π π' δ δ' h :
   cfg_ok c = true -> abi_ok abi -> valid_sched π -> valid_sched π' ->
-  run c abi π h = run c abi π' h.
+  run c abi π δ h = run c abi π' δ' h.
 Proof. intros. unfold run. apply run_from_deterministic; auto. Qed.
 
 (** every function of the final state and of the results (the app hash, the results hash) agrees *)
-Corollary app_hash_deterministic {H : Type} (hash : state * list (list Z) -> H) c abi π π' h :
+Corollary app_hash_deterministic {H : Type} (hash : state * list (list Z) -> H) c abi π π' δ δ' h :
   cfg_ok c = true -> abi_ok abi -> valid_sched π -> valid_sched π' ->
-  hash (run c abi π h) = hash (run c abi π' h).
+  hash (run c abi π δ h) = hash (run c abi π' δ' h).
 Proof. intros. f_equal. apply run_deterministic; auto. Qed.
 
 (** without the sort in Sudoers.ToPb the composed run depends on the schedule *)
 Theorem run_refuted_before_fix :
-  exists h, run cfg_before_fix [] sched_id h <> run cfg_before_fix [] sched_rev h.
+  exists h, run cfg_before_fix [] sched_id clock_fast h <> run cfg_before_fix [] sched_rev clock_fast h.
 Proof. exists [MSudoEdit true [1; 2; 3]]. vm_compute. discriminate. Qed.
 
 Theorem run_refuted_unsorted_dirties :
-  exists h, run cfg_dirties_unsorted [] sched_id h <> run cfg_dirties_unsorted [] sched_rev h.
+  exists h, run cfg_dirties_unsorted [] sched_id clock_fast h <> run cfg_dirties_unsorted [] sched_rev clock_fast h.
 Proof.
   exists [MEvmTx [(1, mk_sobj false 10 [(1, 5)]); (2, mk_sobj false 20 [])]]. vm_compute. discriminate.
+Qed.
+
+(** the producer goroutine of omap.Range gives up after a bound (a `select` against a timer around the send): the SAME
+    history under the SAME map schedule ends in different prices on a replica whose oracle EndBlock stalls between two pairs *)
+Definition cfg_range_timeout : cfg := mk_cfg true true true true true true false.
+
+Theorem run_refuted_range_timeout :
+  exists h, run cfg_range_timeout [] sched_id clock_fast h <> run cfg_range_timeout [] sched_id (clock_stall_second 1500) h.
+Proof.
+  exists [MOracleEndBlock [(1, 5); (2, 3)]
+            [(11, mk_ballot true 100 [mk_vote 1 5 VWin; mk_vote 2 3 VWin]);
+             (12, mk_ballot true 101 [mk_vote 1 5 VWin; mk_vote 2 3 VWin])] 2 1000].
+  vm_compute. discriminate.
 Qed.
 
 (* ------------------------------------------------------------------ non-vacuity *)
@@ -557,16 +601,17 @@ Lemma example_abi_ok : abi_ok example_abi.
 Proof. split; repeat constructor; simpl; intuition discriminate. Qed.
 
 (** the hypotheses are met by a concrete non-trivial history under two different schedules, and the
-    run does real work (three accounts numbered, prices written, rewards paid, a method found) *)
+    run does real work (three accounts numbered, prices written — also by the replica that stalls for a minute between
+    two pairs of the oracle tally —, rewards paid, a method found) *)
 Example run_deterministic_nonvacuous :
   cfg_ok cfg_all = true /\ abi_ok example_abi /\ valid_sched sched_id /\ valid_sched sched_rev /\
-  run cfg_all example_abi sched_id example_history = run cfg_all example_abi sched_rev example_history /\
-  st_sudo (fst (run cfg_all example_abi sched_id example_history)) = [20; 30] /\
-  ev_next (st_evm (fst (run cfg_all example_abi sched_id example_history))) = 3 /\
-  kv_keys (st_prices (fst (run cfg_all example_abi sched_id example_history))) = [11; 13] /\
-  st_distributed (fst (run cfg_all example_abi sched_id example_history)) > 0 /\
-  om_keys (st_precompiles (fst (run cfg_all example_abi sched_id example_history))) = [1; 9; 2048; 2049] /\
-  last (snd (run cfg_all example_abi sched_id example_history)) [] = [2].
+  run cfg_all example_abi sched_id clock_fast example_history = run cfg_all example_abi sched_rev (clock_stall_second 60000) example_history /\
+  st_sudo (fst (run cfg_all example_abi sched_id clock_fast example_history)) = [20; 30] /\
+  ev_next (st_evm (fst (run cfg_all example_abi sched_id clock_fast example_history))) = 3 /\
+  kv_keys (st_prices (fst (run cfg_all example_abi sched_rev (clock_stall_second 60000) example_history))) = [11; 13] /\
+  st_distributed (fst (run cfg_all example_abi sched_id clock_fast example_history)) > 0 /\
+  om_keys (st_precompiles (fst (run cfg_all example_abi sched_id clock_fast example_history))) = [1; 9; 2048; 2049] /\
+  last (snd (run cfg_all example_abi sched_id clock_fast example_history)) [] = [2].
 Proof.
   split; [reflexivity|]. split; [apply example_abi_ok|].
   split; [apply valid_sched_id|]. split; [apply valid_sched_rev|].
@@ -617,3 +662,9 @@ Example restart_independent_nonvacuous :
   run_handlers false [(false, mk_hmsg true true); (true, mk_hmsg true false); (false, mk_hmsg true true); (true, mk_hmsg true true)]
   = [0; 0; 0; 0]%nat.
 Proof. reflexivity. Qed.
+
+Example range_recv_nonvacuous :
+  range_recv None [0; 60000; 3] [11; 12; 13] = [11; 12; 13] /\
+  range_recv (Some 1000) [0; 60000; 3] [11; 12; 13] = [11] /\
+  range_recv (Some 1000) [0; 7; 3] [11; 12; 13] = [11; 12; 13].
+Proof. vm_compute. repeat split; reflexivity. Qed.
